@@ -571,15 +571,18 @@ def rows(thorough):
     return out
 
 
-def histories(thorough):
-    beh = "KCS" if thorough else "KC"
+def histories(thorough, fat="-"):
+    """K = keep-alive, C = 'Connection: close' + EOF, S = complete response then silent EOF.
+    quick: every history of length <= 2 over {K,C,S} and of length 3 over {K,C};
+    thorough: every history of length <= 3 over {K,C,S}.
+    When the fault sits on EVERY socket no response is ever produced, so the letters cannot
+    matter and only the length is enumerated."""
+    if fat == "all":
+        return ["K", "KK", "KKK"]
     out = []
     for n in (1, 2, 3):
+        beh = "KCS" if (thorough or n < 3) else "KC"
         out += ["".join(t) for t in itertools.product(beh, repeat=n)]
-    if not thorough:
-        # the silent close (complete response, then EOF without announcement) in the positions
-        # where a later request can observe it
-        out += ["S", "SK", "SS", "KS", "KSK", "SKS", "SSK", "CSK"]
     return out
 
 
@@ -599,10 +602,15 @@ def cases_of(task):
     hfs = list(HOSTFORMS) if thorough else QUICK_HOSTFORMS
     retr = [False, 1, 2] if thorough else [False, 1]
     for hf in hfs:
-        for hist in histories(thorough):
+        for hist in histories(thorough, fat):
             for retries in retr:
                 yield {"ps": ps, "ds": ds, "fwd": fwd, "fault": fault, "fat": fat, "cok": cok, "ph": ph, "rh": rh,
                        "hf": hf, "hist": hist, "retries": retries}
+
+
+def size_of(task):
+    _row, fat, _ph, _rh, thorough = task
+    return (len(HOSTFORMS) if thorough else len(QUICK_HOSTFORMS)) * len(histories(thorough, fat)) * (3 if thorough else 2)
 
 
 def _worker(task):
@@ -692,10 +700,10 @@ def run(ctx):
     nconf = conformance(acc)
     c = acc.counters
     ntasks = len(tasks)
-    per_task = len(list(cases_of(tasks[0])))
+    expected_n = sum(size_of(t) for t in tasks)
     cov = {
         "distinct_nontrivial": c["distinct_nontrivial"],
-        "exhaustive": acc.n == ntasks * per_task,
+        "exhaustive": acc.n == expected_n,
         "rule": "full product: routing rows (proxy scheme x destination scheme x use_forwarding_for_https x one fault "
                 "{none, proxy cert untrusted/other party's cert, CONNECT 403/407/502/garbage/EOF, origin cert untrusted/other party's cert} "
                 "x CONNECT success reply {200, 200+headers}; pruned where the truth table makes a dimension unobservable) x fault placement "
@@ -705,7 +713,7 @@ def run(ctx):
                 "(row, per-socket wire transcript + TLS set-ups + outcomes)" % (
                     ", only socket 2" if ctx.thorough else "", len(HOSTFORMS) if ctx.thorough else len(QUICK_HOSTFORMS),
                     "{False,1,2}" if ctx.thorough else "{False,1}"),
-        "rows": len(rows(ctx.thorough)), "tasks": ntasks, "cases_per_task": per_task,
+        "rows": len(rows(ctx.thorough)), "tasks": ntasks, "table_size": expected_n,
         "standin_conformance_cases": nconf,
         "pruned": rows.__doc__.split("pruning what cannot matter:")[1].strip(),
     }
